@@ -85,7 +85,7 @@ def handle : Handler := fun op inp impl => do
     let fwd := match jopt inp "fwd" with | some (.bool b) => b | _ => false
     let implPanic := (jopt impl "panic").isSome
     let holds := if implPanic then [("C09.loop_total", false), ("C06.loop_total", false)] else
-      RV.Oracle.ClosedLoop.stateOracles post fwd ++ RV.Oracle.ClosedLoop.stepOracles pre lab post
+      RV.Oracle.ClosedLoop.stateOracles post fwd ++ RV.Oracle.ClosedLoop.stepOracles pre lab post fwd
     let tags := (if fwd then "scope:fwd" else "scope:any") :: (if RV.Oracle.ClosedLoop.fwdInv post then "fwdInv:holds" else "fwdInv:fails") :: tags
     match labelOf lab with
     | none => return { model := .null, holds := holds, tags := "uncompared" :: tags }
